@@ -186,7 +186,8 @@ pub fn run(toks: &[&str]) -> String {
             if i == 0 {
                 return; // ClockErrorBoundPoller::default(): Instant::now() at `start`
             }
-            let s = sh3.steps[i - 1];
+            // (a poll loop that reads its clocks more often than the script has steps is answered from the last step)
+            let s = sh3.steps[(i - 1).min(sh3.steps.len() - 1)];
             let k = sh3.mono_reads.fetch_add(1, SeqCst) + 1;
             let grace_read = if s.mode == 1 { 2 } else { 1 };
             if k == grace_read {
@@ -215,7 +216,7 @@ pub fn run(toks: &[&str]) -> String {
                 let f: f64 = t.current_correction.into();
                 let tag = (f * 131072.0) as i64;
                 let tag = if t.leap_status as i64 == tag % 3 { tag } else { -1 };
-                out.push(format!("D:{}:{}:{}:{}", as_of.tv_sec * NS + as_of.tv_nsec, phc, t.ref_id, tag));
+                out.push(format!("D:{}:{}:{}:{}", as_of.tv_sec as i128 * NS as i128 + as_of.tv_nsec as i128, phc, t.ref_id, tag));
             }
             Ok(Message::ChronyNotRespondingGracePeriod) => out.push("NG".into()),
             Ok(Message::ChronyNotResponding) => out.push("NR".into()),
